@@ -138,6 +138,7 @@ type exec struct {
 	callOrd map[*ssa.Function]map[ssa.Instruction]int
 	closures map[string]*closureInfo // by Ref term
 	calleeNameCache map[string]string
+	lastAppendKeep  *smt.Term // set by appendOp: the condition under which the last append stayed in place
 }
 
 type closureInfo struct {
@@ -438,6 +439,13 @@ func (x *exec) step(st *State, fr *Frame, b *ssa.BasicBlock, ins ssa.Instruction
 		case *types.Array:
 			x.safe(st, ins, "index", smt.And(smt.BVCmp("bvsle", zero64, idx), smt.BVCmp("bvslt", idx, smt.BVLit(uint64(xt.Len()), 64))))
 			st.regs[ins] = scalar(ins.Type(), smt.Select(xv.one(), idx))
+		case *types.Basic:
+			if xt.Info()&types.IsString == 0 {
+				unsupported("Index on %v", ins.X.Type())
+			}
+			// s[i] on a string: bounds obligation, byte-at function of the string
+			x.safe(st, ins, "index", smt.And(smt.BVCmp("bvsle", zero64, idx), smt.BVCmp("bvslt", idx, e.strLen(xv.one()))))
+			st.regs[ins] = scalar(ins.Type(), e.strAt(xv.one(), idx))
 		default:
 			unsupported("Index on %v", ins.X.Type())
 		}
